@@ -241,9 +241,11 @@ pub fn c18(em: &mut Emit, thorough: bool, _seed: u64) {
                 for o in &outs {
                     match o {
                         FOut::Chunk(_, d) => {
-                            if d.is_empty() || d.len() > 65536 {
+                            // (non-empty; how large is the read size's business — the model
+                            // comparison knows the current one, the property does not care)
+                            if d.is_empty() {
                                 ok = false;
-                                why = format!("chunk of {} bytes", d.len());
+                                why = "empty chunk".into();
                             }
                             got.extend_from_slice(d);
                         }
